@@ -1,0 +1,41 @@
+//go:build verif
+
+package standard
+
+import (
+	apiv1 "github.com/attestantio/go-builder-client/api/v1"
+	builderspec "github.com/attestantio/go-builder-client/spec"
+	"github.com/attestantio/go-eth2-client/spec/phase0"
+	"github.com/attestantio/vouch/services/accountmanager"
+	"github.com/attestantio/vouch/services/blockrelay"
+	"github.com/attestantio/vouch/strategies/builderbid"
+	"github.com/rs/zerolog"
+	zerologger "github.com/rs/zerolog/log"
+	"golang.org/x/sync/semaphore"
+)
+
+// NewForVerifC09 builds a Service without the REST daemon, the scheduler jobs and the initial
+// configuration fetch, for driving AuctionBlock and BuilderBid with a given execution
+// configuration, builder-bid strategy and builder configurations.
+// Only compiled with the "verif" build tag.
+func NewForVerifC09(logLevel zerolog.Level,
+	accountsProvider accountmanager.AccountsProvider,
+	executionConfig blockrelay.ExecutionConfigurator,
+	builderBidProvider builderbid.Provider,
+	builderConfigs map[phase0.BLSPubKey]*blockrelay.BuilderConfig,
+) *Service {
+	log := zerologger.With().Str("service", "blockrelay").Str("impl", "standard").Logger().Level(logLevel)
+
+	return &Service{
+		log:                          log,
+		accountsProvider:             accountsProvider,
+		latestValidatorRegistrations: make(map[phase0.BLSPubKey]phase0.Root),
+		signedValidatorRegistrations: make(map[phase0.Root]*apiv1.SignedValidatorRegistration),
+		builderBidsCache:             make(map[string]map[string]*builderspec.VersionedSignedBuilderBid),
+		executionConfig:              executionConfig,
+		activitySem:                  semaphore.NewWeighted(1),
+		builderBidProvider:           builderBidProvider,
+		builderConfigs:               builderConfigs,
+		controlledValidators:         make(map[phase0.BLSPubKey]struct{}),
+	}
+}
